@@ -1,4 +1,373 @@
-/-! Sched: executable models (no Mathlib imports). -/
+import Solvor.Gen.SchedConsts
+/-!
+Sched: executable models and Bool checkers for C18 (no Mathlib imports).
+
+Part 1 (`solvor/job_shop.py`).  `_dispatch` and `_rebuild_schedule` are the same machine: keep a
+clock per machine and per job, repeatedly pick *some* job that still has operations left and
+place its next operation at `max(machine_free, job_free)`.  The dispatching rule (`spt`, `lpt`,
+`mwkr`, `fifo`, `random`), the seed, and the priorities of the local search's rebuild only decide
+*which* job is picked.  The model therefore takes the sequence of picked jobs as a parameter
+(`dispatch jobs cs`); the theorems quantify over every such sequence.  `choose`/`dispatchRule`
+additionally mirror the four deterministic rules with CPython's `min`/`max` tie-breaking.
+
+Part 2 (`solvor/vrp.py`).  Bookkeeping state `(routes, unassigned)` with the abstract
+transitions `remove S`, `insert c [(v,pos),…]`, `recompute`; arrival times are a cache of the
+derived function `arrivals`, the objective is `objective`.  Everything the RNG, the float
+distances and the insertion heuristics decide appears only as the payload of a transition.
+-/
 namespace Solvor.Sched
+
+/-! ## Part 1: job-shop dispatch -/
+
+/-- An operation: (machine, duration). -/
+abbrev Op := Nat × Nat
+abbrev Jobs := List (List Op)
+
+def Jobs.ops (jobs : Jobs) (j : Nat) : List Op := jobs.getD j []
+def Jobs.op (jobs : Jobs) (j k : Nat) : Op := (jobs.ops j).getD k (0, 0)
+def Jobs.mach (jobs : Jobs) (j k : Nat) : Nat := (jobs.op j k).1
+def Jobs.dur (jobs : Jobs) (j k : Nat) : Nat := (jobs.op j k).2
+
+/-- One line of the schedule dict: `(job, op) ↦ (start, fin)`. -/
+structure Entry where
+  job : Nat
+  op : Nat
+  start : Int
+  fin : Int
+  deriving DecidableEq, Repr
+
+def Entry.key (e : Entry) : Nat × Nat := (e.job, e.op)
+
+/-- Pointwise update of a clock / counter table. -/
+def upd {β : Type} (f : Nat → β) (i : Nat) (v : β) : Nat → β := fun x => if x = i then v else f x
+
+/-- `next_op`, `machine_free`, `job_free` and the schedule built so far (insertion order). -/
+structure DState where
+  next : Nat → Nat
+  mfree : Nat → Int
+  jfree : Nat → Int
+  sched : List Entry
+
+def DState.init : DState := ⟨fun _ => 0, fun _ => 0, fun _ => 0, []⟩
+
+/-- Place the next operation of job `j` (body of the loops of `_dispatch` / `_rebuild_schedule`). -/
+def place (jobs : Jobs) (s : DState) (j : Nat) : DState :=
+  let k := s.next j
+  let m := jobs.mach j k
+  let st := max (s.mfree m) (s.jfree j)
+  let en := st + (jobs.dur j k : Int)
+  { next := upd s.next j (k + 1), mfree := upd s.mfree m en, jfree := upd s.jfree j en,
+    sched := s.sched ++ [⟨j, k, st, en⟩] }
+
+def runChoices (jobs : Jobs) (cs : List Nat) (s : DState) : DState := cs.foldl (place jobs) s
+
+/-- The schedule produced by picking the jobs `cs` in this order. -/
+def dispatch (jobs : Jobs) (cs : List Nat) : List Entry := (runChoices jobs cs DState.init).sched
+
+/-- A complete choice sequence: only real jobs are picked and job `j` is picked exactly as often as
+it has operations.  (Picking a *job* – never an operation – is what "respecting job order" means:
+the operation placed is always the job's next one.) -/
+def Choices (jobs : Jobs) (cs : List Nat) : Prop :=
+  (∀ j ∈ cs, j < jobs.length) ∧ ∀ j, j < jobs.length → cs.count j = (jobs.ops j).length
+
+instance (jobs : Jobs) (cs : List Nat) : Decidable (Choices jobs cs) := by
+  unfold Choices; exact inferInstance
+
+/-- `_compute_makespan`: `max(end …) if schedule else 0`. -/
+def makespan : List Entry → Int
+  | [] => 0
+  | e :: es => es.foldl (fun m x => max m x.fin) e.fin
+
+/-- The property's notion of a valid job-shop schedule. -/
+structure ValidSchedule (jobs : Jobs) (S : List Entry) : Prop where
+  /-- no operation has two entries -/
+  once : (S.map Entry.key).Nodup
+  /-- exactly the operations of the instance have an entry -/
+  all : ∀ j k, (∃ e ∈ S, e.job = j ∧ e.op = k) ↔ k < (jobs.ops j).length
+  /-- end − start = duration -/
+  dur : ∀ e ∈ S, e.fin - e.start = (jobs.dur e.job e.op : Int)
+  /-- operations of a job in order, without overlap -/
+  order : ∀ a ∈ S, ∀ b ∈ S, a.job = b.job → a.op < b.op → a.fin ≤ b.start
+  /-- no two operations overlap on a machine -/
+  mach : ∀ a ∈ S, ∀ b ∈ S, a.key ≠ b.key → jobs.mach a.job a.op = jobs.mach b.job b.op →
+    a.fin ≤ b.start ∨ b.fin ≤ a.start
+
+/-- Verified checker for a returned schedule and its reported objective. -/
+def chkSchedule (jobs : Jobs) (S : List Entry) (obj : Int) : Bool :=
+  decide (S.map Entry.key).Nodup
+  && S.all (fun e => decide (e.op < (jobs.ops e.job).length))
+  && (List.range jobs.length).all (fun j => (List.range (jobs.ops j).length).all fun k =>
+        S.any fun e => e.job == j && e.op == k)
+  && S.all (fun e => e.fin - e.start == (jobs.dur e.job e.op : Int))
+  && S.all (fun a => S.all fun b => !(a.job == b.job && decide (a.op < b.op)) || decide (a.fin ≤ b.start))
+  && S.all (fun a => S.all fun b =>
+        !(a.key != b.key && jobs.mach a.job a.op == jobs.mach b.job b.op)
+          || decide (a.fin ≤ b.start) || decide (b.fin ≤ a.start))
+  && obj == makespan S
+
+/-- Refinement checker: the schedule, read in dict insertion order, is exactly what the abstract
+dispatch machine produces for the jobs picked in that order. -/
+def isDispatchOf (jobs : Jobs) (S : List Entry) : Bool :=
+  decide (Choices jobs (S.map Entry.job)) && decide (dispatch jobs (S.map Entry.job) = S)
+
+/-! ### The four deterministic rules (mirror of the `selected = …` block of `_dispatch`) -/
+
+inductive Rule | fifo | spt | lpt | mwkr
+  deriving DecidableEq, Repr
+
+def isReady (jobs : Jobs) (s : DState) (j : Nat) : Bool := decide (s.next j < (jobs.ops j).length)
+
+/-- `ready` in job-index order. -/
+def readyJobs (jobs : Jobs) (s : DState) : List Nat := (List.range jobs.length).filter (isReady jobs s)
+
+/-- `remaining_work[j]`: total duration of the operations of `j` not yet placed. -/
+def remaining (jobs : Jobs) (s : DState) (j : Nat) : Nat :=
+  (((jobs.ops j).drop (s.next j)).map Prod.snd).sum
+
+/-- CPython `min(xs, key=…)` / `max(xs, key=…)`: the *first* extremal element. -/
+def firstBest (better : Nat → Nat → Bool) : List Nat → Option Nat
+  | [] => none
+  | j :: js => some (js.foldl (fun b x => if better x b then x else b) j)
+
+def choose (r : Rule) (jobs : Jobs) (s : DState) : Option Nat :=
+  let d := fun j => jobs.dur j (s.next j)
+  match r with
+  | .fifo => (readyJobs jobs s).head?
+  | .spt => firstBest (fun x b => decide (d x < d b)) (readyJobs jobs s)
+  | .lpt => firstBest (fun x b => decide (d x > d b)) (readyJobs jobs s)
+  | .mwkr => firstBest (fun x b => decide (remaining jobs s x > remaining jobs s b)) (readyJobs jobs s)
+
+/-- `for _ in range(total_ops): … if not ready: break … place(selected)`. -/
+def dispatchWith (jobs : Jobs) (ch : DState → Option Nat) : Nat → DState → DState
+  | 0, s => s
+  | f + 1, s => match ch s with
+    | none => s
+    | some j => dispatchWith jobs ch f (place jobs s j)
+
+def totalOps (jobs : Jobs) : Nat := (jobs.map List.length).sum
+
+def dispatchRule (r : Rule) (jobs : Jobs) : List Entry :=
+  (dispatchWith jobs (choose r jobs) (totalOps jobs) DState.init).sched
+
+/-! ## Part 2: VRP bookkeeping -/
+
+structure VState where
+  routes : List (List Nat)
+  unassigned : List Nat
+  deriving DecidableEq, Repr
+
+/-- Static data of an instance.  Customers are `1..n` (0 is the depot); `none` is `+∞`. -/
+structure Prob where
+  n : Nat
+  req : Nat → Nat
+  dist : Nat → Nat → Rat
+  demand : Nat → Rat
+  twStart : Nat → Rat
+  twEnd : Nat → Option Rat
+  service : Nat → Rat
+  cap : Nat → Option Rat
+
+def onRoute (s : VState) (c : Nat) : Prop := ∃ r ∈ s.routes, c ∈ r
+
+instance (s : VState) (c : Nat) : Decidable (onRoute s c) := by unfold onRoute; exact inferInstance
+
+/-- The bookkeeping invariant of C18. -/
+structure Inv (P : Prob) (s : VState) : Prop where
+  /-- routes hold customers only (no depot, nothing out of range) -/
+  rangeR : ∀ r ∈ s.routes, ∀ c ∈ r, 1 ≤ c ∧ c ≤ P.n
+  rangeU : ∀ c ∈ s.unassigned, 1 ≤ c ∧ c ≤ P.n
+  nodupU : s.unassigned.Nodup
+  /-- every customer is unassigned xor on at least one route (never lost, never both) -/
+  part : ∀ c, 1 ≤ c → c ≤ P.n → (c ∈ s.unassigned ↔ ¬ onRoute s c)
+  /-- never twice on the same route -/
+  nodupR : ∀ r ∈ s.routes, r.Nodup
+  /-- a single-vehicle customer is on at most one (hence, if assigned, exactly one) route -/
+  single : ∀ c, 1 ≤ c → c ≤ P.n → P.req c ≤ 1 → ∀ (i j : Nat) (r r' : List Nat), s.routes[i]? = some r →
+    s.routes[j]? = some r' → c ∈ r → c ∈ r' → i = j
+
+def chkInv (P : Prob) (s : VState) : Bool :=
+  s.routes.all (fun r => r.all fun c => decide (1 ≤ c ∧ c ≤ P.n))
+  && s.unassigned.all (fun c => decide (1 ≤ c ∧ c ≤ P.n))
+  && decide s.unassigned.Nodup
+  && (List.range' 1 P.n).all (fun c => s.unassigned.contains c != s.routes.any (·.contains c))
+  && s.routes.all (fun r => decide r.Nodup)
+  && (List.range' 1 P.n).all (fun c => decide (P.req c ≤ 1) →
+        (List.range s.routes.length).all fun i => (List.range s.routes.length).all fun j =>
+          ((s.routes.getD i []).contains c && (s.routes.getD j []).contains c) → i == j)
+
+/-- Python `route.insert(pos, c)` for `pos ≤ len(route)`. -/
+def insAt (r : List Nat) (p c : Nat) : List Nat := r.take p ++ c :: r.drop p
+
+/-- Insert `c` on every route `v` listed in `vps`, at the listed position. -/
+def insertAll (c : Nat) (vps : List (Nat × Nat)) (routes : List (List Nat)) : List (List Nat) :=
+  routes.mapIdx fun v r => match vps.lookup v with
+    | some p => insAt r p c
+    | none => r
+
+/-- Drop the customers of `S` from every route. -/
+def removeAll (S : List Nat) (routes : List (List Nat)) : List (List Nat) :=
+  routes.map fun r => r.filter fun x => !S.contains x
+
+inductive Step
+  | remove (S : List Nat)
+  | insert (c : Nat) (vps : List (Nat × Nat))
+  | recompute
+  deriving DecidableEq, Repr
+
+def Step.isInsert : Step → Bool
+  | .insert _ _ => true
+  | _ => false
+
+/-- The abstract transitions.  `remove S`: the customers `S` leave every route and join
+`unassigned`.  `insert c vps`: an unassigned customer is put on the pairwise distinct routes of
+`vps` (one route unless it is a multi-vehicle customer) and leaves `unassigned`.  `recompute`
+(refreshing the arrival-time cache) does not touch the bookkeeping. -/
+def StepRel (P : Prob) : Step → VState → VState → Prop
+  | .remove S, s, s' =>
+      S.Nodup ∧ (∀ c ∈ S, 1 ≤ c ∧ c ≤ P.n) ∧ s'.routes = removeAll S s.routes ∧
+      s'.unassigned.Perm (s.unassigned ++ S.filter fun x => !s.unassigned.contains x)
+  | .insert c vps, s, s' =>
+      (1 ≤ c ∧ c ≤ P.n) ∧ c ∈ s.unassigned ∧ vps ≠ [] ∧ (vps.map Prod.fst).Nodup ∧
+      (∀ vp ∈ vps, vp.1 < s.routes.length ∧ vp.2 ≤ (s.routes.getD vp.1 []).length) ∧
+      (P.req c ≤ 1 → vps.length = 1) ∧
+      s'.routes = insertAll c vps s.routes ∧ s'.unassigned.Perm (s.unassigned.erase c)
+  | .recompute, s, s' => s' = s
+
+instance (P : Prob) (st : Step) (s s' : VState) : Decidable (StepRel P st s s') := by
+  cases st <;> unfold StepRel <;> exact inferInstance
+
+inductive Run (P : Prob) : List Step → VState → VState → Prop
+  | nil (s) : Run P [] s s
+  | cons {st sts s s' s''} : StepRel P st s s' → Run P sts s' s'' → Run P (st :: sts) s s''
+
+/-- Canonical successor of a step (the one with `unassigned` in the model's order). -/
+def applyStep (st : Step) (s : VState) : VState :=
+  match st with
+  | .remove S => ⟨removeAll S s.routes, s.unassigned ++ S.filter fun x => !s.unassigned.contains x⟩
+  | .insert c vps => ⟨insertAll c vps s.routes, s.unassigned.erase c⟩
+  | .recompute => s
+
+/-- Run a plan, checking each step's relation against its canonical successor. -/
+def runPlan (P : Prob) : List Step → VState → Option VState
+  | [], s => some s
+  | st :: sts, s => if StepRel P st s (applyStep st s) then runPlan P sts (applyStep st s) else none
+
+/-- Refinement checker for the destroy operators: `post` is `remove S` of `pre` for the set `S` of
+customers that became unassigned. -/
+def isRemove (P : Prob) (pre post : VState) : Bool :=
+  decide (StepRel P (.remove (post.unassigned.filter fun x => !pre.unassigned.contains x)) pre post)
+
+/-- The insert plan read off a (pre, post) pair: the customers that left `unassigned`, one
+`insert` each, positions taken in `post` with the later-inserted customers deleted. -/
+def insertPlan (pre post : VState) : List Step :=
+  let ins := pre.unassigned.filter fun x => !post.unassigned.contains x
+  let rec go : List Nat → List Step
+    | [] => []
+    | c :: later =>
+      .insert c ((post.routes.zipIdx.filter fun rv => rv.1.contains c).map fun rv =>
+          (rv.2, (rv.1.filter fun x => !later.contains x).idxOf c)) :: go later
+  go ins
+
+/-- Refinement checker for the repair operators: `post` is reached from `pre` by `insert` steps. -/
+def isInsertRun (P : Prob) (pre post : VState) : Bool :=
+  match runPlan P (insertPlan pre post) pre with
+  | some s => decide (s.routes = post.routes) && decide (post.unassigned.Perm s.unassigned)
+  | none => false
+
+/-! ### Arrival times and the objective -/
+
+/-- `compute_arrival_times` from customer `c` on, `t` = time of reaching `c` before waiting. -/
+def arrFrom (P : Prob) : Rat → Nat → List Nat → List Rat
+  | t, c, [] => [max t (P.twStart c)]
+  | t, c, d :: r =>
+    let a := max t (P.twStart c)
+    a :: arrFrom P (a + P.service c + P.dist c d) d r
+
+def arrivals (P : Prob) : List Nat → List Rat
+  | [] => []
+  | c :: r => arrFrom P (P.dist 0 c) c r
+
+/-- "Consistent with travel, waiting and service times", as a relation on (route, times). -/
+structure ArrSpec (P : Prob) (route : List Nat) (ts : List Rat) : Prop where
+  len : ts.length = route.length
+  first : ∀ c, route[0]? = some c → ts[0]? = some (max (P.dist 0 c) (P.twStart c))
+  next : ∀ i c d a, route[i]? = some c → route[i + 1]? = some d → ts[i]? = some a →
+    ts[i + 1]? = some (max (a + P.service c + P.dist c d) (P.twStart d))
+
+def closeTo (tol a b : Rat) : Bool := decide (a - b ≤ tol) && decide (b - a ≤ tol)
+
+/-- The implementation's cached times agree with the exact recomputation within `tol`. -/
+def chkArrivals (tol : Rat) (P : Prob) (route : List Nat) (ts : List Rat) : Bool :=
+  ts.length == route.length && (ts.zip (arrivals P route)).all fun ab => closeTo tol ab.1 ab.2
+
+/-- `route_distance`: depot → first → … → last → depot. -/
+def legs (P : Prob) : Nat → List Nat → Rat
+  | last, [] => P.dist last 0
+  | prev, c :: r => P.dist prev c + legs P c r
+
+def routeDist (P : Prob) : List Nat → Rat
+  | [] => 0
+  | c :: r => P.dist 0 c + legs P c r
+
+def totalDist (P : Prob) (s : VState) : Rat := (s.routes.map (routeDist P)).sum
+
+def vehiclesUsed (s : VState) : Nat := (s.routes.filter fun r => !r.isEmpty).length
+
+/-- lateness of one visit -/
+def late (P : Prob) (c : Nat) (a : Rat) : Rat :=
+  match P.twEnd c with
+  | none => 0
+  | some e => if a > e then a - e else 0
+
+def twViol (P : Prob) (s : VState) : Rat :=
+  (s.routes.map fun r => ((r.zip (arrivals P r)).map fun ca => late P ca.1 ca.2).sum).sum
+
+def load (P : Prob) (r : List Nat) : Rat := (r.map P.demand).sum
+
+def capViol (P : Prob) (s : VState) : Rat :=
+  (s.routes.zipIdx.map fun rv => match P.cap rv.2 with
+    | none => 0
+    | some k => if load P rv.1 > k then load P rv.1 - k else 0).sum
+
+/-- arrival times of the vehicles visiting `c` (first occurrence per route, as `route.index`). -/
+def visitTimes (P : Prob) (s : VState) (c : Nat) : List Rat :=
+  s.routes.filterMap fun r => if r.contains c then (arrivals P r)[r.idxOf c]? else none
+
+def maxL : List Rat → Rat
+  | [] => 0
+  | a :: as => as.foldl max a
+def minL : List Rat → Rat
+  | [] => 0
+  | a :: as => as.foldl min a
+
+def syncOne (P : Prob) (s : VState) (c : Nat) : Rat :=
+  let ts := visitTimes P s c
+  if ts.length < P.req c then ((P.req c - ts.length : Nat) : Rat) * Solvor.Gen.Sched.sync_missing
+  else if ts.length > 1 then maxL ts - minL ts
+  else 0
+
+def syncViol (P : Prob) (s : VState) : Rat :=
+  ((List.range' 1 P.n).map fun c => if P.req c > 1 then syncOne P s c else 0).sum
+
+structure Weights where
+  dw : Rat
+  vw : Rat
+  twp : Rat
+  capp : Rat
+  syncp : Rat
+  unp : Rat
+
+/-- Defaults of `vrp_objective` as the source has them now. -/
+def Weights.default : Weights :=
+  ⟨Solvor.Gen.Sched.distance_weight, Solvor.Gen.Sched.vehicle_weight, Solvor.Gen.Sched.tw_penalty,
+   Solvor.Gen.Sched.capacity_penalty, Solvor.Gen.Sched.sync_penalty, Solvor.Gen.Sched.unassigned_penalty⟩
+
+/-- `vrp_objective`: the documented weighted sum. -/
+def objective (W : Weights) (P : Prob) (s : VState) : Rat :=
+  W.dw * totalDist P s + W.vw * (vehiclesUsed s : Rat) + W.twp * twViol P s + W.capp * capViol P s
+    + W.syncp * syncViol P s + W.unp * (s.unassigned.length : Rat)
+
+def chkObjective (tol : Rat) (W : Weights) (P : Prob) (s : VState) (obj : Rat) : Bool :=
+  closeTo tol obj (objective W P s)
 
 end Solvor.Sched
